@@ -431,6 +431,62 @@ def rule_partial_shortcut(P):
     return R
 
 
+def _split_sig(sig):
+    t = (sig or "").strip()
+    if not t.startswith("("):
+        return None
+    d, cur, out = 0, "", []
+    for ch in t[1:]:
+        if ch in "(<[":
+            d += 1
+        if ch in ")>]":
+            if d == 0:
+                break
+            d -= 1
+        if ch == "," and d == 0:
+            out.append(cur.strip())
+            cur = ""
+        else:
+            cur += ch
+    out.append(cur.strip())
+    return out
+
+
+def rule_flags_binding(P):
+    """node_storage_flags, node_handle, unsigned and int convert into each other silently.  Where a call is spelled with a storage-flag constant
+    (FULL_ONLY, SPARSE_ONLY, FULL_OR_SPARSE) the overload clang resolved must take a node_storage_flags in that position; otherwise the call has
+    picked another overload and the constant is being read as a node handle or a size (pregen_relation::splitMxd: defect D18)"""
+    R = RuleResult("guard.flags-binding", "every argument spelled FULL_ONLY / SPARSE_ONLY / FULL_OR_SPARSE binds to a parameter of type node_storage_flags in the overload the compiler resolved")
+    flags = {"FULL_ONLY", "SPARSE_ONLY", "FULL_OR_SPARSE"}
+    seen = set()
+    for f in sorted(P.fns.values(), key=lambda f: (f["file"], f["line"], f["inst"])):
+        if not f.get("cfg"):
+            continue
+        for b in f["cfg"]["blocks"]:
+            for e in b["ev"]:
+                if e["k"] not in ("call", "construct") or not e.get("args"):
+                    continue
+                for i, a in enumerate(e["args"]):
+                    if a.strip().replace("MEDDLY::", "") not in flags:
+                        continue
+                    ps = _split_sig(e.get("sig", ""))
+                    key = (f["file"], e["line"], i)
+                    if key in seen or not ps or i >= len(ps):
+                        continue
+                    seen.add(key)
+                    R.paths += 1
+                    R.functions.add(f["inst"])
+                    iid = "%s:%s %s(… %s …)" % (f["file"], e["line"], e["q"].split("::")[-1], a.strip())
+                    if "node_storage_flags" in ps[i] or "unsigned char" in ps[i]:
+                        R.instances.append({"id": iid, "where": "src/%s:%s" % (f["file"], e["line"]), "ok": True}) if len(R.instances) < 400 else None
+                    else:
+                        R.fail(iid, where(f, e["line"]), Finding(R.rule, f["file"], base_name(f["q"]), "%s#%d=%s" % (e["q"].split("::")[-1], i, a.strip()),
+                               "`%s` is passed as argument %d of %s%s, whose parameter there is `%s`: the call resolved to a different overload than the one written for, and the flag constant is read as a %s" % (
+                                   a.strip(), i + 1, e["q"].replace(M, ""), e.get("sig", ""), ps[i], "node handle" if "node_handle" in ps[i] else "value of that type"), e["line"]))
+    R.require_floor(250, "storage-flag arguments")
+    return R
+
+
 def rule_null_op(P):
     R = RuleResult("guard.null-op", "every apply() wrapper tests the operation returned by the factory and throws NOT_IMPLEMENTED when it is null, before calling compute on it")
     for f in sorted(P.fns.values(), key=lambda f: (f["file"], f["line"], f["inst"])):
@@ -491,4 +547,4 @@ def rule_iterator_deref(P):
 
 
 RULES = [rule_ctor_checks, rule_div_zero, rule_sub_infinity, rule_int_overflow, rule_edge_for_value, rule_null_op, rule_iterator_deref]
-VALUE_RULES = [rule_zero_of_stored, rule_partial_shortcut]
+VALUE_RULES = [rule_zero_of_stored, rule_partial_shortcut, rule_flags_binding]
